@@ -100,21 +100,25 @@ TB_CONFIGS = {
 
 OPERANDS = {"elems", "attrs", "nss", "texts", "kids", "odd", "leaves", "all", "top", "last"}
 # path-spelled operands evaluated from an element focus
-PATHS = dict(AbsPaths={"//*", "//@*"}, RelPaths={"*", "@*", ".//*"}, RelRel=False, PathCmpOps={"is", "<<"})
+RAWPROBES = {"is", "self", "one", "parent", "root", "before", "intersect", "except", "list"}
+CHAINSEQ = ["odd", "low", "elems", "kids"]       # NodeOps!ChainSeq (operand variables of the unparenthesised chains)
+PATHS = dict(AbsPaths={"//*", "//@*"}, RelPaths={"*", "@*", ".//*"}, RelRel=False, PathCmpOps={"is", "<<"},
+             ChainOps={"union", "intersect", "except"}, RawProbes=RAWPROBES)
 PATHS_FULL = dict(AbsPaths={"//*", "//@*", "//text()"}, RelPaths={"*", "@*", ".//*", "text()", "."}, RelRel=True,
-                  PathCmpOps={"is", "<<", ">>"})
+                  PathCmpOps={"is", "<<", ">>"}, ChainOps={"union", "intersect", "except"}, RawProbes=RAWPROBES)
 NO_CONFIGS = {
     'quick': [
+        # comments as children, PIs as lxml document-level siblings (thorough: both kinds everywhere)
         ('ops2', dict(MaxItems=2, ItemKinds={"e", "c"}, TextOpts={True}, TailOpts={True}, AttrCounts={1},
-                      DeclOpts={fs({"p"})}, NsArgs={E}, MaxSibs=1, Operands=OPERANDS - {"all", "top", "last"},
-                      MaxSteps=2, **PATHS, **ALLCFG)),
+                      DeclOpts={fs({"p"})}, NsArgs={E}, MaxSibs=1, SibKinds={"p"},
+                      Operands=OPERANDS - {"all", "top", "last"}, MaxSteps=2, **PATHS, **ALLCFG)),
     ],
     'thorough': [
         ('ops2', dict(MaxItems=2, ItemKinds={"e", "c"}, TextOpts={True}, TailOpts={True}, AttrCounts={1},
-                      DeclOpts={fs({"p"})}, NsArgs={E}, MaxSibs=1, Operands=OPERANDS, MaxSteps=2,
+                      DeclOpts={fs({"p"})}, NsArgs={E}, MaxSibs=1, SibKinds={"c", "p"}, Operands=OPERANDS, MaxSteps=2,
                       **PATHS_FULL, **ALLCFG)),
-        ('ops3', dict(MaxItems=3, ItemKinds={"e", "c"}, TextOpts={True}, TailOpts={True}, AttrCounts={1},
-                      DeclOpts={fs({"p"})}, NsArgs={E}, MaxSibs=0, Operands=OPERANDS - {"all", "top"}, MaxSteps=2, **PATHS,
+        ('ops3', dict(MaxItems=3, ItemKinds={"e", "c", "p"}, TextOpts={True}, TailOpts={True}, AttrCounts={1},
+                      DeclOpts={fs({"p"})}, NsArgs={E}, MaxSibs=0, SibKinds={"c"}, Operands=OPERANDS - {"all", "top"}, MaxSteps=2, **PATHS,
                       Variants={"etree", "lxml"}, RootArgs={"elem", "tree"}, Fragments={"none", "false"})),
     ],
 }
@@ -202,6 +206,12 @@ class Built:
                     o.text = ''
                 if etl[i - 1]:
                     o.tail = ''
+        self.sibs: dict[int, object] = {}       # lxml document-level comments / PIs: NodeOps sub index -> object
+        if self.variant == 'lxml':
+            for j, o in enumerate(reversed(list(self.root.itersiblings(preceding=True))), 1):
+                self.sibs[j] = o
+            for j, o in enumerate(self.root.itersiblings(), 101):
+                self.sibs[j] = o
         self.obj2item = {id(o): i for i, o in self.objs.items()}
         self.arg = self.root if cfg['rootarg'] == 'elem' else self.doc
         ns = cfg['nsarg']
@@ -671,7 +681,7 @@ def ops_tree_worker(job):
             return res
         out = []
         for x in res:
-            out.append(rank_of_node.get(id(x), ('?', repr(x)[:40])))
+            out.append(x if isinstance(x, bool) else rank_of_node.get(id(x), ('?', repr(x)[:40])))
         return out
 
     def record(feat, case, exp, obs):
@@ -789,6 +799,90 @@ def ops_tree_worker(job):
                            dict(kind='ops', sub='path', cfg=cfg, tree=tree, dseq=dseq, text=shown, how=how, focus=f,
                                 parser=v, A=A, B=B, xml=built.xml()), exp, str(obs))
 
+    def chain_edge(dst, action, args):
+        """$A op $B op $C (op $D) WITHOUT parentheses: the expected node set is the EBNF grouping (TLC)."""
+        if action == 'Chain2':
+            o, idx, disc = args[:2], [args[2], args[3], args[4]], args[5]
+        else:
+            i, d = args[3], args[4]
+            o, disc = args[:3], args[5]
+            idx = [((i - 1 + (q if d == 1 else 4 - q)) % 4) + 1 for q in range(4)]
+        names = [CHAINSEQ[j - 1] for j in idx]
+        exp = sorted(states[dst][0])
+        if disc:
+            stats['nontrivial'] += 1
+        spell = [list(o)]
+        if 'union' in o:
+            spell.append(['|' if x == 'union' else x for x in o])
+        vs = ('2.0', '3.0', '3.1')
+        for sp in spell:
+            text = f'${names[0]}' + ''.join(f' {op} ${nm}' for op, nm in zip(sp, names[1:]))
+            for v in (vs[(stats['transitions']) % 3],):      # one grammar table per version family: rotate
+                obs = project(ops_eval(v, text, root_node, base_vars, frag))
+                stats['evaluations'] += 1
+                if obs != exp:
+                    record(dict(part='ops', action='Chain', ops=' '.join(o), discriminating=bool(disc), parser=v,
+                                variant=cfg['variant'], rootarg=cfg['rootarg'], fragment=cfg['fragment'],
+                                outcome=outcome(exp, obs)),
+                           dict(kind='ops', sub='chain', cfg=cfg, tree=tree, dseq=dseq, opnds=opnds, text=text, parser=v,
+                                xml=built.xml()), exp, str(obs))
+
+    def raw_obj(r):
+        k, src, sub = exp_desc[r - 1]
+        return built.doc if k == 'd' else built.sibs[sub] if k in ('sc', 'sp') else built.objs[src]
+
+    RAWTEXTS = {    # probe -> [(expression, context item is the raw object?)]
+        'is': [('$v is $n', False), ('. is $n', True)],
+        'self': [('.', True), ('$v', False), ('$v/self::node()', False)],
+        'one': [('$v | $n', False), ('$n union $v', False)],
+        'parent': [('$v/parent::*', False), ('parent::*', True)],
+        'root': [('root($v)', False), ('root(.)', True), ('root()', True)],
+        'before': [('$v << $last', False), ('. << $last', True)],
+        'intersect': [('$all intersect $v', False), ('$v intersect $all', False), ('. intersect $all', True)],
+        'except': [('$all except $v', False), ('$all except .', True)],
+        'list': [('$all intersect $vs', False), ('$vs/.', False)],
+    }
+
+    def raw_edge(dst):
+        """The caller hands in RAW objects of the input tree (item= / variables=): the node they stand for is the
+        node of the tree.  Context built on the node tree (so that $n / $all can be bound) and on the raw root."""
+        _, pb, x = states[dst][2]
+        st = states[dst]
+        exp = [st[1] == 'true'] if st[1] in ('true', 'false') else sorted(st[0])
+        stats['nontrivial'] += 1
+        raw = raw_obj(x)
+        raw_ranks = [r for r in range(1, M + 1) if kind[r] in ('e', 'c', 'p', 'sc', 'sp')
+                     or (kind[r] == 'd' and cfg['rootarg'] == 'tree')]
+        variables = {'v': raw, 'n': node_of_rank[x], 'last': node_of_rank[M],
+                     'all': [node_of_rank[r] for r in range(M, 0, -1)],
+                     'vs': [raw_obj(r) for r in reversed(raw_ranks)]}
+        v = ('2.0', '3.0', '3.1')[(x + stats['transitions']) % 3]
+        common = dict(part='ops', action='Raw', probe=pb, raw_kind=kind[x], parser=v, variant=cfg['variant'],
+                      rootarg=cfg['rootarg'], fragment=cfg['fragment'])
+        for text, as_item in RAWTEXTS[pb]:
+            tok = get_token(v, text)
+            runs = [('node_tree_root', lambda: XPathContext(root_node, fragment=frag, item=raw if as_item else None,
+                                                            variables=variables))]
+            if pb in ('self', 'parent', 'root'):
+                runs.append(('raw_root', None))
+            for how, mk in runs:
+                stats['evaluations'] += 1
+                if mk is None:
+                    obs, _ = fresh_eval(v, text, item=raw if as_item else None, variables={'v': raw})
+                elif isinstance(tok, Exception):
+                    obs = ('err', type(tok).__name__, getattr(tok, 'code', None))
+                else:
+                    try:
+                        obs = project(list(tok.select(mk())))
+                    except Exception as ex:    # noqa: BLE001
+                        obs = ('err', type(ex).__name__, getattr(ex, 'code', None))
+                if obs != exp:
+                    record(dict(common, via=('item' if as_item else 'variable'), root=how,
+                                outcome=(outcome(exp, obs) if isinstance(obs, tuple) or not exp or not isinstance(exp[0], bool)
+                                         else 'wrong_bool')),
+                           dict(kind='ops', sub='raw', cfg=cfg, tree=tree, dseq=dseq, text=text, as_item=as_item, how=how,
+                                x=x, parser=v, xml=built.xml()), exp, str(obs))
+
     prefix = {init_sid: '$r'}
     queue = deque([init_sid])
     samples = []
@@ -800,6 +894,12 @@ def ops_tree_worker(job):
             stats['transitions'] += 1
             if action in ('PathAny', 'PathCmpAny', 'RootWalk'):
                 path_edges(dst, action)
+                continue
+            if action in ('Chain2', 'Chain3'):
+                chain_edge(dst, action, args)
+                continue
+            if action == 'RawAny':
+                raw_edge(dst)
                 continue
             if action == 'CmpAny':
                 op, a, b = states[dst][2]
@@ -1148,7 +1248,13 @@ def run_nodeops(chk: core.Check) -> None:
         seen_ops = {(a, args[0] if args else None) for _, _, a, args in g.edges}
         want = {('SetOp', o) for o in ('union', 'intersect', 'except', 'rexcept')} | \
                {('Fn', f) for f in ('innermost', 'outermost', 'root')} | \
-               {('CmpAny', None), ('PathAny', None), ('PathCmpAny', None), ('RootWalk', None)}
+               {('CmpAny', None), ('PathAny', None), ('PathCmpAny', None), ('RootWalk', None), ('RawAny', None)}
+        # the unparenthesised chains must DISCRIMINATE the groupings for every pair of operators that is not associative
+        disc2 = {(args[0], args[1]) for _, _, a, args in g.edges if a == 'Chain2' and args[5]}
+        need2 = {(x, y) for x in consts['ChainOps'] for y in consts['ChainOps']} - \
+            {('union', 'union'), ('intersect', 'intersect'), ('intersect', 'except')}   # (A n B) \\ C = A n (B \\ C): associative
+        if need2 - disc2 or not any(a == 'Chain3' and args[5] for _, _, a, args in g.edges):
+            raise tla.MachineryError(f'NodeOps/{name}: no discriminating chain for {sorted(need2 - disc2)} (vacuous)')
         if want - seen_ops:
             raise tla.MachineryError(f'NodeOps/{name}: operators never applied (vacuous): {sorted(want - seen_ops, key=str)}')
         jobs = [tuple(v) for v in trees.values()]
@@ -1216,6 +1322,45 @@ def replay(rec: dict) -> int:
         print('expected :', rec['expected'])
         print('observed :', bad[0][3] if bad else 'agrees now')
         if bad:
+            print('VIOLATION property=C02 replay=(replayed)')
+            return 1
+        return 0
+    if case['kind'] == 'ops' and case.get('sub') == 'raw':
+        from elementpath import XPathContext
+        built = Built(case['cfg'], case['tree'])
+        exp_desc = [tuple(x) for x in case['dseq']]
+        M = len(exp_desc)
+
+        def raw_obj(r):
+            k, src, sub = exp_desc[r - 1]
+            return built.doc if k == 'd' else built.sibs[sub] if k in ('sc', 'sp') else built.objs[src]
+        raw = raw_obj(case['x'])
+        root_node = XPathContext(built.arg, built.namespaces, fragment=built.fragment).root
+        pr = Projection(built, root_node)
+        rank_of_desc = {x: j for j, x in enumerate(exp_desc, 1)}
+        node_of_rank = {rank_of_desc[pr.desc[j]]: nd for j, nd in enumerate(pr.nodes) if pr.desc[j] in rank_of_desc}
+        raw_ranks = [r for r in range(1, M + 1) if exp_desc[r - 1][0] in ('e', 'c', 'p', 'sc', 'sp')
+                     or (exp_desc[r - 1][0] == 'd' and case['cfg']['rootarg'] == 'tree')]
+        variables = {'v': raw, 'n': node_of_rank[case['x']], 'last': node_of_rank[M],
+                     'all': [node_of_rank[r] for r in range(M, 0, -1)], 'vs': [raw_obj(r) for r in reversed(raw_ranks)]}
+        item = raw if case['as_item'] else None
+        tok = get_token(case['parser'], case['text'])
+        try:
+            if case['how'] == 'raw_root':
+                ctx = XPathContext(built.arg, built.namespaces, fragment=built.fragment, item=item, variables={'v': raw})
+            else:
+                ctx = XPathContext(root_node, fragment=built.fragment, item=item, variables=variables)
+            res = list(tok.select(ctx))
+            p2 = Projection(built, ctx.root)
+            rk = {id(nd): rank_of_desc.get(p2.desc[j], ('?', str(p2.desc[j]))) for j, nd in enumerate(p2.nodes)}
+            obs = [x if isinstance(x, bool) else rk.get(id(x), ('?', repr(x)[:40])) for x in res]
+        except Exception as ex:   # noqa: BLE001
+            obs = ('err', type(ex).__name__, getattr(ex, 'code', None))
+        print('expr     :', case['text'], f"  raw object of rank {case['x']} {exp_desc[case['x'] - 1]} as",
+              'context item' if case['as_item'] else '$v', ' root =', case['how'], ' parser', case['parser'])
+        print('expected :', rec['expected'])
+        print('observed :', obs)
+        if list(obs) != list(rec['expected']):
             print('VIOLATION property=C02 replay=(replayed)')
             return 1
         return 0
